@@ -203,6 +203,30 @@ def run_worker(exe, args, flagset, seed, start, count, worker=0, nworkers=1, tim
         sig = classify_sanitizer(err)
         if crash is None:
             crash = {"t": "crash", "case": None, "sig": p.returncode, "desc": ""}
+        if crash.get("t") == "hang" and crash.get("case") is not None and crash["case"] >= 0:
+            # bounded-progress watchdog fired: a violation only if it reproduces in isolation with a 3x budget
+            c = crash["case"]
+            cmd1 = [exe, "--seed", str(seed), "--start", str(c), "--count", "1", "--worker", "0", "--nworkers", "1", "--hang", "90"] + list(args)
+            try:
+                p1 = subprocess.run(cmd1, capture_output=True, timeout=600, env=run_env(flagset, extra_env))
+                reproduced = p1.returncode == 97
+                if p1.returncode not in (0, 97):
+                    # the isolated run ended abnormally in another way: treat like a crash of that case
+                    err = p1.stderr.decode("utf-8", "replace"); sig = classify_sanitizer(err); crash["t"] = "crash"; reproduced = True
+                else:
+                    for r in _parse_lines(p1.stdout.decode("utf-8", "replace")):
+                        if r.get("t") == "violation":
+                            r["driver_cmd"] = cmd1; res.violations.append(r)
+            except subprocess.TimeoutExpired:
+                reproduced = True
+            if not reproduced:
+                res.slow_cases = getattr(res, "slow_cases", 0) + 1
+                nxt = c + 1
+                if nworkers > 1:
+                    while nxt < end and nxt % nworkers != worker:
+                        nxt += 1
+                cur = nxt
+                continue
         kind = "hang" if crash.get("t") == "hang" else (sig or "signal/%s" % crash.get("sig"))
         v = {"t": "violation", "case": crash.get("case"), "sig": "abnormal/" + kind,
              "detail": {"desc": crash.get("desc", ""), "rc": p.returncode, "stderr": err[-5000:]}, "driver_cmd": cmd}
